@@ -6,7 +6,26 @@
 // to the return of its current operation).
 package coop
 
-import "fmt"
+import (
+	"fmt"
+	"runtime"
+)
+
+// gid returns the id of the calling goroutine (parsed from the stack header). It is used
+// only to tell the goroutine of the thread being stepped from any other goroutine that
+// reaches a yield site (one spawned by the library itself, e.g. by a changed AfterFunc).
+func gid() uint64 {
+	var buf [64]byte
+	n := runtime.Stack(buf[:], false)
+	var id uint64
+	for _, c := range buf[len("goroutine "):n] {
+		if c < '0' || c > '9' {
+			break
+		}
+		id = id*10 + uint64(c-'0')
+	}
+	return id
+}
 
 // Kinds of step outcome.
 const (
@@ -48,6 +67,7 @@ type Thread struct {
 	report   chan Event
 	finished bool
 	dead     bool
+	gid      uint64
 	// Site the thread is currently parked at (0 = at an operation boundary).
 	AtSite int
 	// number of steps taken inside the current operation
@@ -61,6 +81,14 @@ type Sched struct {
 	Blocked func(t *Thread) bool
 	// OnEvent, when set, sees every event of every step (owner tracking etc.).
 	OnEvent func(t *Thread, e Event)
+	// Foreign counts goroutines that are not logical threads of this scheduler but reached a
+	// yield site while a thread was being stepped (goroutines the library spawned itself). They
+	// are parked for ever: "this goroutine is delayed arbitrarily long" is a legal schedule, and
+	// the model has no such goroutine, so whatever it was supposed to do never happens.
+	Foreign int
+	// ForeignFree lets foreign goroutines run through instead (for harnesses whose library code
+	// legitimately reaches yield sites from its own goroutines).
+	ForeignFree bool
 }
 
 // New creates a scheduler; progs[i] is the operation list of thread i. The caller must
@@ -76,6 +104,7 @@ func New(progs [][]Op) *Sched {
 }
 
 func (s *Sched) loop(t *Thread) {
+	t.gid = gid()
 	for _, op := range t.ops {
 		<-t.resume
 		ev := s.runOp(op)
@@ -100,6 +129,13 @@ func (s *Sched) Yield(site int) {
 	t := s.cur
 	if t == nil {
 		return // unmanaged goroutine (set-up code): run through
+	}
+	if t.gid != 0 && gid() != t.gid {
+		if s.ForeignFree {
+			return
+		}
+		s.Foreign++
+		select {} // a goroutine of the library's own: delayed for ever
 	}
 	t.report <- Event{Kind: KYield, Site: site}
 	<-t.resume
